@@ -42,6 +42,24 @@ def _soft(ctx, name, agree):
     d["agree" if agree else "differ"] += 1
 
 
+def _vc(ctx, name, a, b, tol):
+    """vclose + record of the largest deviation/tolerance ratio among the comparisons that passed (evidence `glue_margins`)"""
+    a = np.asarray(a, dtype=float).ravel(); b = np.asarray(b, dtype=float).ravel()
+    if a.shape != b.shape:
+        return False
+    ok = vclose(a, b, tol)
+    if ok and a.size and np.all(np.isfinite(a)) and np.all(np.isfinite(b)):
+        ratio = float(np.max(np.abs(a - b) / (tol * (1.0 + np.maximum(np.abs(a), np.abs(b))))))
+        m = ctx.extra_cov.setdefault("glue_margins", {}).setdefault(name, {"max_dev_over_tol": 0.0, "comparisons": 0})
+        m["max_dev_over_tol"] = max(m["max_dev_over_tol"], round(ratio, 6)); m["comparisons"] += 1
+    return ok
+
+
+def _cgtol(H, B):
+    """iterate tolerance of the CG ties: float CG loses conjugacy with the conditioning of the operator"""
+    return max(1e-8, 1e-12 * H.eff_cond(B) ** 4)
+
+
 def _cov(ctx, hist, k):
     h = ctx.extra_cov.setdefault(hist, {})
     h[k] = h.get(k, 0) + 1
@@ -184,7 +202,8 @@ def check_ctor_maxit(ctx, rs, sc, H, CGLS, PCGLS, FISTA, LM, ProjectNonnegative,
             ctx.fail(key, desc, "a result", repr(e)[:120], f"{solver} raises for a finite maxit on a well-posed problem")
             continue
         xi, ki = np.asarray(r[0], dtype=float), int(r[1])
-        if ki != km or not vclose(xi, xm, 1e-8):
+        ctol = _cgtol(H, np.array(d["A"]) @ np.linalg.inv(np.array(d["P"])) if "P" in d else np.array(d["A"])) if orc[0] == "cg" else 1e-8
+        if ki != km or not _vc(ctx, f"ctor-{solver}", xi, xm, ctol):
             ctx.disagree(key, desc, [km, xm.tolist()], [ki, xi.tolist()], "result differs from the model (int(maxit) / loop budget)")
             # property oracle at this input: a run to convergence through the same constructor path must satisfy the optimality system
             if orc[0] == "cg":
@@ -259,7 +278,7 @@ def check_pcgls_dispatch(ctx, rs, sc, H, cuqi, S, PCGLS):
             xi, ki = np.asarray(r[0], dtype=float), int(r[1])
             kap = H.eff_cond(A @ np.linalg.inv(P))
             exact_term = ki > km and km >= 1           # exact arithmetic terminated (gamma = 0), floats go on: judged by the oracle below
-            if (ki != km and not exact_term) or (ki == km and not vclose(xi, xm, max(1e-8, 1e-12 * kap ** 4))):
+            if (ki != km and not exact_term) or (ki == km and not _vc(ctx, "pcgls-dispatch", xi, xm, max(1e-8, 1e-12 * kap ** 4))):
                 ctx.disagree(key, desc, [km, xm.tolist()], [ki, xi.tolist()], "PCGLS result differs from the model")
                 H.converged_oracle(ctx, key, {**desc, "maxit": 200}, A, b, x0, 0.0,
                                    lambda k, t: PCGLS(op, b.copy(), x0.copy(), Psp, k, t).solve())
@@ -516,8 +535,8 @@ def check_lm_explicit(ctx, rs, sc, H, LM):
         _soft(ctx, "lm-explicit-returns", True)
         _, rm, Jm = out.split("|")
         x, info = r
-        ok = np.array_equal(np.asarray(x, dtype=float), x0) and vclose(np.asarray(info["func"], dtype=float), [float(v) for v in pv(rm)], 1e-12) \
-            and vclose(np.asarray(info["Jac"], dtype=float), [float(v) for v in pv(Jm)], 1e-12) and info["nfev"] == 0
+        ok = np.array_equal(np.asarray(x, dtype=float), x0) and _vc(ctx, "lm-explicit-func", np.asarray(info["func"], dtype=float), [float(v) for v in pv(rm)], 1e-12) \
+            and _vc(ctx, "lm-explicit-Jac", np.asarray(info["Jac"], dtype=float), [float(v) for v in pv(Jm)], 1e-12) and info["nfev"] == 0
         if not ok:
             ctx.disagree("LM:explicit:no-iteration", d, [x0.tolist(), rm, Jm, 0], [np.asarray(x).tolist(), np.asarray(info["func"]).tolist(), info["nfev"]],
                          "without a loop pass LM must return x0 and info of x0")
@@ -572,7 +591,9 @@ def check_negative_tolerances(ctx, rs, sc, H, CGLS, PCGLS, LM):
             ctx.fail(key, desc, "a result", repr(e)[:100], f"{solver} raises on a well-posed problem")
             continue
         xi, ki = np.asarray(r[0], dtype=float), int(r[1])
-        if ki != km or not vclose(xi, xm, 1e-8):
+        Aop = np.array(d.get("A", d.get("M")))
+        ntol = _cgtol(H, Aop @ np.linalg.inv(np.array(d["P"])) if "P" in d else Aop) if solver != "LM" else 1e-8
+        if ki != km or not _vc(ctx, f"negtol-{solver}", xi, xm, ntol):
             ctx.disagree(key, desc, [km, xm.tolist()], [ki, xi.tolist()], "run with a negative tolerance differs from the model")
             # the property at this input: an early return claims convergence; the optimality system must then hold
             if ki < maxit and not at_sol:
@@ -636,7 +657,13 @@ def check_lm_damping(ctx, rs, sc, H, LM):
         fs = [0.5 * float(np.sum(res(x) ** 2)) for x in xs]
         _soft(ctx, "lm-impl-f-monotone", all(fs[j] <= fs[j - 1] * (1 + 1e-12) for j in range(1, len(fs))))
         if got != exp:
-            # a decision may sit at its threshold in floating point (ratio == 0 exactly in the model): tolerate only then
+            # the accept test looks at the SIGN of f - ftemp: once the iteration has converged to working precision that difference is
+            # rounding noise and the decision may legitimately differ from exact arithmetic — tolerated only there (counted)
+            j = next(t for t in range(min(len(got), len(exp))) if got[t] != exp[t]) if len(got) == len(exp) else 0
+            gj = float(np.linalg.norm(jac(xs[j]).T @ res(xs[j])))
+            if len(got) == len(exp) and gj <= 1e-6 * nuinit:
+                _soft(ctx, "lm-damping-decision-at-rounding-level", True)
+                continue
             ctx.disagree(key, desc, exp, got, "accept/reject pattern of the damping loop differs from the model")
             H.lm_stop_oracle(ctx, key, desc, res, jac, x0, xs[-1], int(im), maxit, 1e-8)
             H.oracle_lm(ctx, key, desc, res, jac, jf, x0, nu0, sparse, LM)
@@ -705,7 +732,7 @@ def check_assigned_maxit(ctx, rs, sc, H, CGLS, FISTA, LM, ProjectNonnegative):
         for (n_, is_assigned, out, *_rest) in lst:
             if "|" in out:
                 km, xm = int(out.split("|")[0]), np.array([float(t_) for t_ in pv(out.split("|")[1])])
-                if km == ki and vclose(xi, xm, 1e-8):
+                if km == ki and _vc(ctx, f"assigned-{solver}", xi, xm, _cgtol(H, A) if solver == "CGLS" else 1e-8):
                     match = "raw-number (ceil)" if is_assigned else "int()"
                     break
         if match is None:
@@ -823,7 +850,7 @@ def check_stored_buffer_callables(ctx, rs, sc, H, minimize, maximize, L_BFGS_B, 
         ctx.case("glue-stored-buffer-other", desc)
         a, e = _run(lambda: LS(r_buf, x0.copy(), jacfun=lambda x: Jc, method=["trf", "dogbox", "lm"][i % 3]).solve())
         r_, e2 = _run(lambda: sopt.least_squares(lambda x: B @ x - cc, x0.copy(), jac=lambda x: B.copy(), method=["trf", "dogbox", "lm"][i % 3], loss="linear", xtol=1e-6, max_nfev=10000))
-        if (e is None) != (e2 is None) or (e is None and not vclose(np.asarray(a[0]), r_["x"], 1e-9)):
+        if (e is None) != (e2 is None) or (e is None and not _vc(ctx, "LS-stored-callables", np.asarray(a[0]), r_["x"], 1e-9)):
             ctx.disagree("LS:stored-callables", desc, "SciPy's result", "differs", "differs from the SciPy call with fresh arrays")
             ctx.fail("LS:stored-callables", desc, r_["x"].tolist() if e2 is None else repr(e2)[:80], np.asarray(a[0]).tolist() if e is None else repr(e)[:80],
                      "wrapper does not return SciPy's result unchanged")
